@@ -980,6 +980,10 @@ func (r *Reader) parseBodyElementsInOrder(data []byte) error {
 	decoder := xml.NewDecoder(strings.NewReader(string(data)))
 	var inBody bool
 	var paraIndex, tableIndex int
+	// depth of the current element below <w:body>: Body.Paragraphs and Body.Tables hold
+	// the body's direct children only, so paragraphs inside table cells (and tables
+	// nested in cells) must not be counted
+	depth := 0
 
 	for {
 		token, err := decoder.Token()
@@ -996,6 +1000,11 @@ func (r *Reader) parseBodyElementsInOrder(data []byte) error {
 			}
 
 			if !inBody {
+				continue
+			}
+
+			depth++
+			if depth != 1 {
 				continue
 			}
 
@@ -1019,7 +1028,9 @@ func (r *Reader) parseBodyElementsInOrder(data []byte) error {
 				}
 			}
 		case xml.EndElement:
-			if t.Name.Local == "body" {
+			if inBody && depth > 0 {
+				depth--
+			} else if t.Name.Local == "body" {
 				inBody = false
 			}
 		}
